@@ -8,9 +8,9 @@ import OsmoVerif.Driver.World
                 (`Sched.boundaries`, counted as the harness counts its gate points), or after the tick when
                 the tick has fewer than k+1 boundaries; then the rest of the tick
   Answer per op: datagrams of both threads in the order they were sent, `stale:<n>`, `EXC:<e>`,
-  `fwd:<src>:<fn>:<tick fn>` for every burst handed to `forward_msg`, and for the race `points:<n>` (boundaries the
-  tick went through), `EXC:clock:<e>` / `EXC:socket:<e>` in the order they happened; then ports and final state as
-  `world.run`.  Stateless per line. -/
+  `fwd:<src>:<fn>:<tick fn>` for every burst handed to `forward_msg`, and for the race `at:<boundary | after>` (where
+  the socket operation ran), `points:<n>` (boundaries the tick went through), `EXC:clock:<e>` / `EXC:socket:<e>` in
+  the order they happened; then ports and final state as `world.run`.  Stateless per line. -/
 namespace OsmoVerif.Driver.WorldSched
 open OsmoVerif.World OsmoVerif.World.Sched OsmoVerif.Driver OsmoVerif
 open OsmoVerif.Driver.World (parseExtra splitAt parseOp showDgram showOptInt showPorts showWorld)
@@ -44,6 +44,8 @@ structure Trace where
   afterLock : Bool := false
   /-- the racing operation has been executed -/
   raced : Bool := false
+  /-- the boundary it was executed at -/
+  at_ : String := "after"
   outOfFuel : Bool := false
 
 /-- one atomic action of the clock thread, observed -/
@@ -82,13 +84,13 @@ def runClock (tag : String) (race : Option (Nat × Op)) : Nat → State → Trac
   | fuel + 1, s, t =>
     if finished s.pc then (s, t) else
     -- the boundaries the thread is standing at: the racing operation runs at the k-th one
-    let (s, t) := (boundaries s.pc t.afterLock).foldl (fun (st : State × Trace) _ =>
+    let (s, t) := (boundaries s.pc t.afterLock).foldl (fun (st : State × Trace) name =>
       let (s, t) := st
       let (s, t) := match race with
         | some (k, op) =>
           if ¬ t.raced ∧ t.points = k then
             let (s, t) := sockTraced "EXC:socket:" s op t
-            (s, { t with raced := true })
+            (s, { t with raced := true, at_ := name })
           else (s, t)
         | none => (s, t)
       (s, { t with points := t.points + 1 })) (s, t)
@@ -108,7 +110,7 @@ def showTrace (t : Trace) (race : Bool) : String :=
   let parts := if t.stale > 0 then parts ++ [s!"stale:{t.stale}"] else parts
   let parts := if race then parts else parts ++ t.excs
   let parts := parts ++ t.fwd
-  let parts := if race then parts ++ [s!"points:{t.points}"] ++ t.excs else parts
+  let parts := if race then parts ++ ["at:" ++ t.at_, s!"points:{t.points}"] ++ t.excs else parts
   let parts := if t.outOfFuel then parts ++ ["OUT-OF-FUEL"] else parts
   if parts.isEmpty then "." else ",".intercalate parts
 
